@@ -1,5 +1,5 @@
 """C03 — the hash depends only on the byte stream, not on how it is fed (structural half)."""
-from ..rules import engine, errflow, generator as gen
+from ..rules import engine, errflow, generator as gen, witness
 
 EXPL = ("Decides: SA-SIBLING: the per-byte regions of update / update_by_iter / update_by_byte (from the rolling-hash update of the "
         "current byte to the back edge) canonicalise to identical MIR, in release, debug and unsafe builds, and each form iterates its "
@@ -30,4 +30,7 @@ def run(ctx):
         if c != "nodef":
             ctx.guard("C03", "buf", lambda: errflow.buf(ctx, prog))
             ctx.guard("C03", "stream", lambda: errflow.stream_common(ctx, prog))
+    if ctx.tier == "thorough":
+        ctx.cfg = "witness"
+        ctx.guard("C03", "witness", lambda: witness.run(ctx, "witness", ["W5"]))
     return ctx.finish(EXPL, ["iterators yield each element of their source exactly once, in order", "saturating_add has its documented meaning"])
